@@ -479,6 +479,17 @@ pub fn exec_repo_op(w: &mut World, op: &GitOp, model_after: &RGit) -> Result<(),
         GitOp::EditSameStat { path } => {
             let c = model_after.wt.get(path).ok_or("model lost path")?;
             let p = w.root.join(path);
+            if std::fs::symlink_metadata(&p).map(|m| m.file_type().is_file()).unwrap_or(false) {
+                // the file has carried an old timestamp for a while and git's stat cache knows it (as after any
+                // `git status`): the cached entry is then not "racily clean", i.e. git has no reason to look at
+                // the content as long as the stat data it compares still match
+                set_mtime(&p, 1_100_000_000 + (crate::prng::hash_str(path) % 100_000_000) as i64)?;
+                let _ = w.git_raw(&["update-index", "-q", "--refresh"]);
+                // git compares the inode change time in whole seconds: an edit within the same second as the refresh
+                // is invisible even to an unmodified git (its documented limit), so the edit waits for the next second
+                let ms = std::time::SystemTime::now().duration_since(std::time::UNIX_EPOCH).map(|d| d.subsec_millis()).unwrap_or(0) as u64;
+                std::thread::sleep(std::time::Duration::from_millis(1000 - ms.min(999) + 30));
+            }
             let before = std::fs::symlink_metadata(&p).ok().filter(|m| m.file_type().is_file());
             write_managed(w, path, c)?;
             if let Some(m) = before {
